@@ -58,10 +58,16 @@ Proof.
   cbn [first_leaf]. rewrite HV. cbn [first_leaf]. rewrite (down_child0 W V HV). reflexivity.
 Qed.
 
+Lemma zero_fill_at : forall q p i room, zero_fill (q ++ p) i room = map (at_ q) (zero_fill p i room).
+Proof.
+  intros q p i [n|]; [|reflexivity]. unfold zero_fill. rewrite map_map. apply map_ext. intro k.
+  cbn [at_]. rewrite app_assoc. reflexivity.
+Qed.
+
 Lemma string_events_at : forall q p s i room,
   string_events (q ++ p) i room s = map (at_ q) (string_events p i room s).
 Proof.
-  intros q p s. induction s as [|c s IH]; intros i room; [reflexivity|].
+  intros q p s. induction s as [|c s IH]; intros i room; [apply zero_fill_at|].
   cbn [string_events]. destruct (in_bound room i); [|reflexivity].
   cbn [map at_]. rewrite IH, app_assoc. reflexivity.
 Qed.
@@ -84,10 +90,10 @@ Proof.
                    = (map (at_ q) (fst (Clear p :: map (at_ p) (spec_items W' (Some [0]) l), p)),
                       q ++ snd (Clear p :: map (at_ p) (spec_items W' (Some [0]) l), p))).
     { cbn [fst snd map at_]. rewrite map_at_app. reflexivity. }
-    assert (Hstr : forall s, (Clear (q ++ p) :: string_events (q ++ p) 0 (array_bound (Some W')) s, q ++ p)
-                   = (map (at_ q) (fst (Clear p :: string_events p 0 (array_bound (Some W')) s, p)),
-                      q ++ snd (Clear p :: string_events p 0 (array_bound (Some W')) s, p))).
-    { intro s. cbn [fst snd map at_]. rewrite string_events_at. reflexivity. }
+    assert (Hstr : forall s, (string_events (q ++ p) 0 (array_bound (Some W')) s, q ++ p)
+                   = (map (at_ q) (fst (string_events p 0 (array_bound (Some W')) s, p)),
+                      q ++ snd (string_events p 0 (array_bound (Some W')) s, p))).
+    { intro s. cbn [fst snd]. rewrite string_events_at. reflexivity. }
     destruct W' as [k|n e|ms|ms].
     + destruct l as [|ds v' tl]; [reflexivity|]. destruct ds as [|d ds]; [|reflexivity].
       destruct tl as [|ds2 v2 tl2]; [|reflexivity]. apply Hl. exact HW.
@@ -125,39 +131,6 @@ Proof. reflexivity. Qed.
 Lemma ok_items_desig_cursor : forall U c1 c2 d ds v tl,
   ok_items U c1 (ICons (d :: ds) v tl) = ok_items U c2 (ICons (d :: ds) v tl).
 Proof. reflexivity. Qed.
-
-(* the GNU form inside `valid`: [a ... b] = v as the whole designation *)
-Definition simple_range (U : ty) (d : desig) (ds : list desig) (v : init) (tl : items) : Prop :=
-  exists a b, d = DRange a b /\ ds = [] /\ range_ok U a b v = true /\ ok_init U [b] v = true /\
-              ok_items U (next U (snd (spec_init U [b] v))) tl = true.
-
-Lemma ok_items_desig : forall U c d ds v tl,
-  ok_items U c (ICons (d :: ds) v tl) = true ->
-  (exists p, targets U (d :: ds) = [p] /\ no_range (d :: ds) = true /\
-             ok_items U (Some p) (ICons [] v tl) = true) \/
-  simple_range U d ds v tl.
-Proof.
-  intros U c d ds v tl H.
-  assert (Hgen : no_range (d :: ds) &&
-                 match targets U (d :: ds) with
-                 | [p] => ok_init U p v && ok_items U (next U (snd (spec_init U p v))) tl
-                 | _ => false
-                 end = true ->
-                 exists p, targets U (d :: ds) = [p] /\ no_range (d :: ds) = true /\
-                           ok_items U (Some p) (ICons [] v tl) = true).
-  { intro H0. apply andb_prop in H0. destruct H0 as [Hnr H0].
-    destruct (targets U (d :: ds)) as [|p [|p2 ps]]; try discriminate.
-    exists p. split; [reflexivity|]. split; [exact Hnr|]. exact H0. }
-  destruct d as [k|a b|m]; try (left; apply Hgen; exact H).
-  destruct ds as [|d2 ds]; [|left; apply Hgen; exact H].
-  right. cbn [ok_items] in H. apply andb_prop in H. destruct H as [H H3]. apply andb_prop in H. destruct H as [H1 H2].
-  exists a, b. repeat split; assumption.
-Qed.
-
-Lemma simple_range_array : forall U d ds v tl, simple_range U d ds v tl -> exists n e, U = TArray n e.
-Proof.
-  intros U d ds v tl [a [b [_ [_ [H _]]]]]. destruct U as [k|n e|ms|ms]; try discriminate. exists n, e. reflexivity.
-Qed.
 
 Lemma spec_items_desig : forall U c d ds v tl p,
   targets U (d :: ds) = [p] ->
@@ -256,15 +229,166 @@ Proof.
   - rewrite Ht. replace (S b - a) with (S (b - a)) by lia. discriminate.
 Qed.
 
+Lemma map_cons_singleton : forall (k : nat) (l : list path) p, map (cons k) l = [p] -> exists p', l = [p'] /\ p = k :: p'.
+Proof.
+  intros k l p H. destruct l as [|p' [|p2 l]]; cbn [map] in H; try discriminate.
+  injection H as <-. exists p'. split; reflexivity.
+Qed.
+
+Lemma split_range_some : forall ds ds1 a b, split_range ds = Some (ds1, a, b) -> ds = ds1 ++ [DRange a b].
+Proof.
+  induction ds as [|d ds IH]; intros ds1 a b H; [discriminate|].
+  cbn [split_range] in H.
+  assert (Hgen : match split_range ds with Some (ds1', a', b') => Some (d :: ds1', a', b') | None => None end = Some (ds1, a, b) ->
+                 d :: ds = ds1 ++ [DRange a b]).
+  { intro H0. destruct (split_range ds) as [[[ds1' a'] b']|] eqn:Hs; [|discriminate]. injection H0 as <- <- <-.
+    rewrite (IH ds1' a' b' eq_refl). reflexivity. }
+  destruct d as [k|a0 b0|m]; try (apply Hgen; exact H).
+  destruct ds as [|d2 ds2]; [injection H as <- <- <-; reflexivity|apply Hgen; exact H].
+Qed.
+
+(* the designators before the range lead to one subobject p1; what follows is relative to it *)
+Lemma targets_app : forall ds1 U p1 W1 ds2, no_range ds1 = true -> targets U ds1 = [p1] -> sub U p1 = Some W1 ->
+  targets U (ds1 ++ ds2) = map (app p1) (targets W1 ds2).
+Proof.
+  induction ds1 as [|d ds1 IH]; intros U p1 W1 ds2 Hnr Ht Hs.
+  - cbn [targets] in Ht. injection Ht as <-. cbn [sub] in Hs. injection Hs as <-. cbn [app]. rewrite map_id. reflexivity.
+  - cbn [no_range forallb] in Hnr. apply andb_prop in Hnr. destruct Hnr as [Hd Hnr].
+    destruct d as [i|a b|m]; [| discriminate Hd |].
+    + destruct U as [k|n e|ms|ms]; cbn [targets] in Ht; try discriminate.
+      destruct (in_bound n i) eqn:Hb; [|discriminate].
+      destruct (map_cons_singleton i _ p1 Ht) as [p1' [Ht' ->]].
+      cbn [sub child] in Hs. rewrite Hb in Hs.
+      cbn [app targets]. rewrite Hb, (IH e p1' W1 ds2 Hnr Ht' Hs), map_map. reflexivity.
+    + destruct U as [k|n e|ms|ms]; cbn [targets] in Ht; try discriminate.
+      * destruct (nth_error ms m) as [Wm|] eqn:Hm; [|discriminate].
+        destruct (map_cons_singleton m _ p1 Ht) as [p1' [Ht' ->]].
+        cbn [sub child] in Hs. rewrite Hm in Hs.
+        cbn [app targets]. rewrite Hm, (IH Wm p1' W1 ds2 Hnr Ht' Hs), map_map. reflexivity.
+      * destruct (nth_error ms m) as [Wm|] eqn:Hm; [|discriminate].
+        destruct (map_cons_singleton m _ p1 Ht) as [p1' [Ht' ->]].
+        cbn [sub child] in Hs. rewrite Hm in Hs.
+        cbn [app targets]. rewrite Hm, (IH Wm p1' W1 ds2 Hnr Ht' Hs), map_map. reflexivity.
+Qed.
+
+Lemma last_map_seq_app : forall (p1 : path) a n, last (map (fun j => p1 ++ [j]) (seq a (S n))) [] = p1 ++ [a + n].
+Proof.
+  intros p1 a n. revert a. induction n as [|n IH]; intro a; [cbn; rewrite Nat.add_0_r; reflexivity|].
+  change (seq a (S (S n))) with (a :: seq (S a) (S n)). cbn [map].
+  change (last ((p1 ++ [a]) :: map (fun j => p1 ++ [j]) (seq (S a) (S n))) [])
+    with (last (map (fun j => p1 ++ [j]) (seq (S a) (S n))) []).
+  rewrite IH. f_equal. f_equal. lia.
+Qed.
+
+Lemma map_flat_map : forall (A B C : Type) (f : B -> C) (g : A -> list B) l,
+  map f (flat_map g l) = flat_map (fun x => map f (g x)) l.
+Proof. intros A B C f g l. induction l as [|x l IH]; [reflexivity|]. cbn [flat_map]. rewrite map_app, IH. reflexivity. Qed.
+
+(* <designators> [a ... b] = v: the elements a..b of the array at p1 each get v, the list goes on after element b *)
+Lemma spec_items_range_tail : forall U c ds1 a b p1 n e v tl,
+  no_range ds1 = true -> targets U ds1 = [p1] -> sub U p1 = Some (TArray n e) ->
+  range_ok (TArray n e) a b v = true -> ok_init e [] v = true ->
+  spec_items U c (ICons (ds1 ++ [DRange a b]) v tl)
+  = map (at_ p1) (flat_map (fun k => map (at_ [k]) (fst (spec_init e [] v))) (seq a (S b - a)))
+    ++ spec_items U (next U (p1 ++ [b])) tl.
+Proof.
+  intros U c ds1 a b p1 n e v tl Hnr Ht Hs Hr Hoke.
+  cbn [range_ok] in Hr. apply andb_prop in Hr. destruct Hr as [Hab Hsingle].
+  pose proof Hab as Hab'. apply andb_prop in Hab'. destruct Hab' as [Hle Hb]. apply Nat.leb_le in Hle.
+  assert (Hsub : forall k, k <= b -> sub U (p1 ++ [k]) = Some e).
+  { intros k Hk. rewrite sub_app, Hs. cbn [sub child]. destruct n as [n|]; cbn [in_bound] in *; [|reflexivity].
+    apply Nat.ltb_lt in Hb. assert (Hkb : k <? n = true) by (apply Nat.ltb_lt; lia). rewrite Hkb. reflexivity. }
+  assert (Hat : forall k, k <= b -> spec_init U (p1 ++ [k]) v = (map (at_ (p1 ++ [k])) (fst (spec_init e [] v)), p1 ++ [k])).
+  { intros k Hk. pose proof (spec_init_at v U (p1 ++ [k]) e [] (Hsub k Hk)) as H. rewrite app_nil_r in H.
+    rewrite H, (single_done e v Hsingle Hoke), app_nil_r. reflexivity. }
+  assert (Htg : targets U (ds1 ++ [DRange a b]) = map (fun j => p1 ++ [j]) (seq a (S b - a))).
+  { rewrite (targets_app ds1 U p1 (TArray n e) [DRange a b] Hnr Ht Hs), (targets_range n e a b Hab), map_map. reflexivity. }
+  assert (Hne : exists d ds, ds1 ++ [DRange a b] = d :: ds) by (destruct ds1 as [|d ds1]; eexists; eexists; reflexivity).
+  destruct Hne as [d [ds Hds]]. rewrite Hds in Htg |- *.
+  rewrite (spec_items_desig_many U c d ds v tl).
+  - rewrite Htg. replace (S b - a) with (S (b - a)) by lia. rewrite last_map_seq_app. replace (a + (b - a)) with b by lia.
+    f_equal; [|rewrite (Hat b (le_n _)); reflexivity]. rewrite flat_map_map, map_flat_map.
+    apply flat_map_ext_in'. intros k Hk. apply in_seq in Hk. rewrite (Hat k ltac:(lia)). cbn [fst]. rewrite map_at_app. reflexivity.
+  - rewrite Htg. replace (S b - a) with (S (b - a)) by lia. discriminate.
+Qed.
+
+(* the GNU forms inside `valid` *)
+Definition simple_range (U : ty) (d : desig) (ds : list desig) (v : init) (tl : items) : Prop :=
+  exists a b, d = DRange a b /\ ds = [] /\ range_ok U a b v = true /\ ok_init U [b] v = true /\
+              ok_items U (next U (snd (spec_init U [b] v))) tl = true.
+
+Definition range_nested (U : ty) (d : desig) (ds : list desig) (v : init) (tl : items) : Prop :=
+  exists ds1 a b p1 n e, ds = ds1 ++ [DRange a b] /\ no_range (d :: ds1) = true /\ targets U (d :: ds1) = [p1] /\
+    sub U p1 = Some (TArray n e) /\ range_ok (TArray n e) a b v = true /\ ok_init e [] v = true /\
+    ok_items U (next U (p1 ++ [b])) tl = true.
+
+Lemma ok_items_desig : forall U c d ds v tl,
+  ok_items U c (ICons (d :: ds) v tl) = true ->
+  (exists p, targets U (d :: ds) = [p] /\ no_range (d :: ds) = true /\
+             ok_items U (Some p) (ICons [] v tl) = true) \/
+  simple_range U d ds v tl \/ range_nested U d ds v tl.
+Proof.
+  intros U c d ds v tl H.
+  change (ok_items U c (ICons (d :: ds) v tl)) with
+    (match split_range (d :: ds) with
+     | Some (ds1, a, b) =>
+         no_range ds1 &&
+         match targets U ds1 with
+         | [p1] => match sub U p1 with
+                   | Some W1 => range_ok W1 a b v && ok_init U (p1 ++ [b]) v
+                                && ok_items U (next U (snd (spec_init U (p1 ++ [b]) v))) tl
+                   | None => false
+                   end
+         | _ => false
+         end
+     | None =>
+         no_range (d :: ds) &&
+         match targets U (d :: ds) with
+         | [p] => ok_init U p v && ok_items U (next U (snd (spec_init U p v))) tl
+         | _ => false
+         end
+     end) in H.
+  destruct (split_range (d :: ds)) as [[[ds1 a] b]|] eqn:Hsp.
+  - apply split_range_some in Hsp. apply andb_prop in H. destruct H as [Hnr H].
+    destruct (targets U ds1) as [|p1 [|p2 ps]] eqn:Ht; try discriminate.
+    destruct (sub U p1) as [W1|] eqn:Hs; [|discriminate].
+    apply andb_prop in H. destruct H as [H H3]. apply andb_prop in H. destruct H as [H1 H2].
+    destruct ds1 as [|d1 ds1].
+    + right. left. cbn [app] in Hsp. injection Hsp as -> ->. cbn [targets] in Ht. injection Ht as <-.
+      cbn [sub] in Hs. injection Hs as <-. exists a, b. repeat split; assumption.
+    + right. right. cbn [app] in Hsp. injection Hsp as -> ->.
+      destruct W1 as [k|n e|ms|ms]; try discriminate H1.
+      pose proof H1 as Hr. cbn [range_ok] in Hr. apply andb_prop in Hr. destruct Hr as [Hab Hsingle].
+      apply andb_prop in Hab. destruct Hab as [_ Hb].
+      assert (Hsubb : sub U (p1 ++ [b]) = Some e) by (rewrite sub_app, Hs; cbn [sub child]; rewrite Hb; reflexivity).
+      assert (Hoke : ok_init e [] v = true).
+      { pose proof (ok_init_at v U (p1 ++ [b]) e [] Hsubb) as H0. rewrite app_nil_r in H0. rewrite <- H0. exact H2. }
+      pose proof (spec_init_at v U (p1 ++ [b]) e [] Hsubb) as Hsi. rewrite app_nil_r in Hsi.
+      rewrite Hsi, (single_done e v Hsingle Hoke), app_nil_r in H3. cbn [snd] in H3.
+      exists ds1, a, b, p1, n, e. repeat split; assumption.
+  - left. apply andb_prop in H. destruct H as [Hnr H0].
+    destruct (targets U (d :: ds)) as [|p [|p2 ps]]; try discriminate.
+    exists p. split; [reflexivity|]. split; [exact Hnr|]. exact H0.
+Qed.
+
+Lemma simple_range_array : forall U d ds v tl, simple_range U d ds v tl -> exists n e, U = TArray n e.
+Proof.
+  intros U d ds v tl [a [b [_ [_ [H _]]]]]. destruct U as [k|n e|ms|ms]; try discriminate. exists n, e. reflexivity.
+Qed.
+
 Lemma spec_items_desig_any_cursor : forall U c1 c2 d ds v tl,
   ok_items U c1 (ICons (d :: ds) v tl) = true ->
   spec_items U c1 (ICons (d :: ds) v tl) = spec_items U c2 (ICons (d :: ds) v tl).
 Proof.
-  intros U c1 c2 d ds v tl H. apply ok_items_desig in H. destruct H as [[p [Hp _]]|Hr].
+  intros U c1 c2 d ds v tl H. apply ok_items_desig in H. destruct H as [[p [Hp _]]|[Hr|Hn]].
   - rewrite (spec_items_desig U c1 d ds v tl p Hp), (spec_items_desig U c2 d ds v tl p Hp). reflexivity.
   - destruct Hr as [a [b [-> [-> [Hr [Hok _]]]]]]. destruct U as [k|n e|ms|ms]; try discriminate.
     destruct (spec_items_range n e a b v tl c1 Hr Hok) as [H1 _].
     destruct (spec_items_range n e a b v tl c2 Hr Hok) as [H2 _]. rewrite H1, H2. reflexivity.
+  - destruct Hn as [ds1 [a [b [p1 [n [e [-> [Hnr [Ht [Hs [Hr [Hoke _]]]]]]]]]]]].
+    change (d :: ds1 ++ [DRange a b]) with ((d :: ds1) ++ [DRange a b]).
+    rewrite (spec_items_range_tail U c1 (d :: ds1) a b p1 n e v tl Hnr Ht Hs Hr Hoke),
+            (spec_items_range_tail U c2 (d :: ds1) a b p1 n e v tl Hnr Ht Hs Hr Hoke). reflexivity.
 Qed.
 
 (* the stream a parser function returns is a suffix of the stream it received *)
@@ -343,7 +467,7 @@ Proof.
 Qed.
 
 Lemma spec_init_braced_str : forall W s, is_char_array W = true ->
-  spec_init W [] (IList (ICons [] (IStr s) INil)) = (Clear [] :: string_events [] 0 (array_bound (Some W)) s, []).
+  spec_init W [] (IList (ICons [] (IStr s) INil)) = (string_events [] 0 (array_bound (Some W)) s, []).
 Proof.
   intros W s H. cbn [spec_init sub]. destruct W as [k|n e|ms|ms]; try discriminate. rewrite H. reflexivity.
 Qed.
@@ -382,7 +506,8 @@ Lemma str_ok_descend : forall W V, child W 0 = Some V -> str_ok W = true -> is_c
 Proof.
   intros W V HV H Hc. destruct W as [k|n e|ms|ms]; cbn [child] in HV.
   - discriminate.
-  - cbn [str_ok] in H. rewrite Hc in H. discriminate.
+  - cbn [str_ok] in H. rewrite Hc in H. cbn [orb] in H. apply andb_prop in H. destruct H as [Hb H].
+    rewrite Hb in HV. injection HV as <-. exact H.
   - destruct ms as [|m ms]; [discriminate|]. injection HV as ->. exact H.
   - destruct ms as [|m ms]; [discriminate|]. injection HV as ->. exact H.
 Qed.
@@ -396,4 +521,115 @@ Proof.
   - cbn [spec_init fst snd ok_init] in *. rewrite <- (first_leaf_descend U q W V HW HV). rewrite HsV, H2. reflexivity.
   - cbn [descends] in Hd. cbn [spec_init fst snd ok_init] in *. rewrite <- (str_target_descend U q W V HW HV Hd), H2.
     destruct s as [|c s]; [discriminate|]. rewrite HW in H1. rewrite HsV, (str_ok_descend W V HV H1 Hd). reflexivity.
+Qed.
+
+(* a valid initializer logs something *)
+Lemma str_ok_target : forall k W, tdepth W < k -> str_ok W = true ->
+  exists n, sub W (down_str W) = Some (TArray n (TScalar 1)) /\ in_bound n 0 = true.
+Proof.
+  induction k as [|k IH]; intros W Hd H; [lia|].
+  destruct W as [k0|n e|ms|ms]; cbn [str_ok] in H; try discriminate.
+  - apply andb_prop in H. destruct H as [Hb H]. cbn [down_str]. destruct (is_char_array (TArray n e)) eqn:Hca.
+    + cbn [sub]. cbn [is_char_array] in Hca. destruct e as [[|[|k1]]| | |]; try discriminate. exists n. split; [reflexivity|exact Hb].
+    + cbn [orb] in H. cbn [sub child]. rewrite Hb. apply IH; [cbn [tdepth] in Hd; lia|exact H].
+  - destruct ms as [|m ms]; [discriminate|]. cbn [down_str sub child nth_error].
+    apply IH; [cbn [tdepth fold_right] in Hd; lia|exact H].
+  - destruct ms as [|m ms]; [discriminate|]. cbn [down_str sub child nth_error].
+    apply IH; [cbn [tdepth fold_right] in Hd; lia|exact H].
+Qed.
+
+Lemma spec_init_nonempty : forall U p v, ok_init U p v = true -> fst (spec_init U p v) <> [].
+Proof.
+  intros U p v H. destruct v as [x|s|l]; cbn [ok_init] in H; try discriminate.
+  - destruct s as [|c s]; [discriminate|]. destruct (sub U p) as [W|] eqn:HW; [|discriminate].
+    destruct (str_ok_target (S (tdepth W)) W ltac:(lia) H) as [n [Hs Hb]].
+    cbn [spec_init fst]. pose proof (str_target_app p U W [] HW) as Ht. rewrite app_nil_r in Ht. cbn [str_target] in Ht.
+    rewrite Ht, sub_app, HW, Hs. cbn [array_bound string_events]. rewrite Hb. discriminate.
+  - cbn [spec_init]. destruct (sub U p) as [[k|n e|ms|ms]|]; try discriminate.
+    + destruct l as [|ds v' tl]; [discriminate|]. destruct ds as [|d0 ds']; [|discriminate].
+      destruct v' as [x|s|l']; try discriminate. destruct tl; [|discriminate]. cbn [spec_init fst]. discriminate.
+    + destruct l as [|[|d0 ds'] [x|s|l'] [|ds2 v2 tl2]]; try (cbn [fst]; discriminate).
+      destruct (is_char_array (TArray n e)) eqn:Hca; [|cbn [fst]; discriminate].
+      destruct s as [|c s]; [discriminate|]. cbn [str_ok] in H. apply andb_prop in H. destruct H as [Hb _].
+      cbn [fst array_bound string_events]. rewrite Hb. discriminate.
+    + destruct l as [|[|d0 ds'] [x|s|l'] [|ds2 v2 tl2]]; cbn [is_char_array fst]; discriminate.
+    + destruct l as [|[|d0 ds'] [x|s|l'] [|ds2 v2 tl2]]; cbn [is_char_array fst]; discriminate.
+Qed.
+
+
+Lemma split_range_app : forall ds1 a b, no_range ds1 = true -> split_range (ds1 ++ [DRange a b]) = Some (ds1, a, b).
+Proof.
+  induction ds1 as [|d ds1 IH]; intros a b H; [reflexivity|].
+  cbn [no_range forallb] in H. apply andb_prop in H. destruct H as [Hd H]. specialize (IH a b H).
+  cbn [app split_range]. destruct d as [k|a0 b0|m]; [|discriminate Hd|]; rewrite IH; destruct (ds1 ++ [DRange a b]); reflexivity.
+Qed.
+
+Lemma ok_items_range_tail : forall U c ds1 a b p1 n e v tl,
+  no_range ds1 = true -> targets U ds1 = [p1] -> sub U p1 = Some (TArray n e) ->
+  range_ok (TArray n e) a b v = true -> ok_init e [] v = true ->
+  ok_items U c (ICons (ds1 ++ [DRange a b]) v tl) = ok_items U (next U (p1 ++ [b])) tl.
+Proof.
+  intros U c ds1 a b p1 n e v tl Hnr Ht Hs Hr Hoke.
+  pose proof Hr as Hr'. cbn [range_ok] in Hr'. apply andb_prop in Hr'. destruct Hr' as [Hab Hsingle].
+  apply andb_prop in Hab. destruct Hab as [_ Hb].
+  assert (Hsubb : sub U (p1 ++ [b]) = Some e) by (rewrite sub_app, Hs; cbn [sub child]; rewrite Hb; reflexivity).
+  pose proof (ok_init_at v U (p1 ++ [b]) e [] Hsubb) as Hoi. rewrite app_nil_r in Hoi.
+  pose proof (spec_init_at v U (p1 ++ [b]) e [] Hsubb) as Hsi. rewrite app_nil_r in Hsi.
+  rewrite (single_done e v Hsingle Hoke), app_nil_r in Hsi.
+  assert (Hne : exists d ds, ds1 ++ [DRange a b] = d :: ds) by (destruct ds1 as [|d ds1]; eexists; eexists; reflexivity).
+  destruct Hne as [d [ds Hds]]. pose proof (split_range_app ds1 a b Hnr) as Hsp. rewrite Hds in Hsp |- *.
+  change (ok_items U c (ICons (d :: ds) v tl)) with
+    (match split_range (d :: ds) with
+     | Some (ds1, a, b) =>
+         no_range ds1 &&
+         match targets U ds1 with
+         | [p1] => match sub U p1 with
+                   | Some W1 => range_ok W1 a b v && ok_init U (p1 ++ [b]) v
+                                && ok_items U (next U (snd (spec_init U (p1 ++ [b]) v))) tl
+                   | None => false
+                   end
+         | _ => false
+         end
+     | None =>
+         no_range (d :: ds) &&
+         match targets U (d :: ds) with
+         | [p] => ok_init U p v && ok_items U (next U (snd (spec_init U p v))) tl
+         | _ => false
+         end
+     end).
+  rewrite Hsp, Hnr, Ht, Hs, Hr, Hoi, Hoke, Hsi. reflexivity.
+Qed.
+
+Lemma split_range_none : forall ds, no_range ds = true -> split_range ds = None.
+Proof.
+  induction ds as [|d ds IH]; intro H; [reflexivity|].
+  cbn [no_range forallb] in H. apply andb_prop in H. destruct H as [Hd H]. specialize (IH H).
+  cbn [split_range]. destruct d as [k|a b|m]; [|discriminate Hd|]; rewrite IH; destruct ds; reflexivity.
+Qed.
+
+Lemma ok_items_desig_single : forall U c d ds v tl p,
+  no_range (d :: ds) = true -> targets U (d :: ds) = [p] ->
+  ok_items U c (ICons (d :: ds) v tl) = ok_items U (Some p) (ICons [] v tl).
+Proof.
+  intros U c d ds v tl p Hnr Ht.
+  change (ok_items U c (ICons (d :: ds) v tl)) with
+    (match split_range (d :: ds) with
+     | Some (ds1, a, b) =>
+         no_range ds1 &&
+         match targets U ds1 with
+         | [p1] => match sub U p1 with
+                   | Some W1 => range_ok W1 a b v && ok_init U (p1 ++ [b]) v
+                                && ok_items U (next U (snd (spec_init U (p1 ++ [b]) v))) tl
+                   | None => false
+                   end
+         | _ => false
+         end
+     | None =>
+         no_range (d :: ds) &&
+         match targets U (d :: ds) with
+         | [p] => ok_init U p v && ok_items U (next U (snd (spec_init U p v))) tl
+         | _ => false
+         end
+     end).
+  rewrite (split_range_none (d :: ds) Hnr), Hnr, Ht. reflexivity.
 Qed.
